@@ -10,13 +10,13 @@ COMPONENTS = {
 
 PROPS = {
     "C01": {"families": [("mixed", 3), ("pause", 2), ("faultfree", 1), ("c05ack", 1), ("ctxcancel", 1), ("sameid", 1)], "judge": ["C01"], "quick_s": 20, "thorough_s": 600},
-    "C02": {"families": [("faultfree", 2), ("c07rounds", 1), ("c02stop", 1), ("ctxcancel", 1), ("c02restart", 1)], "judge": ["C02"], "quick_s": 20, "thorough_s": 600},
+    "C02": {"families": [("faultfree", 2), ("c07rounds", 1), ("c02stop", 1), ("ctxcancel", 1), ("c02restart", 1), ("ctxrestart", 1)], "judge": ["C02"], "quick_s": 20, "thorough_s": 600},
     "C03": {"families": [("c03", 3), ("mixed", 1), ("ctxcancel", 1), ("c13", 2)], "crash_is_violation": True, "judge": ["C03"], "quick_s": 20, "thorough_s": 600, "level": "fault_enumeration"},
     "C04": {"families": [("c04", 1), ("ctxcancel", 1), ("ctxrestart", 1)], "crash_is_violation": True, "judge": ["C04"], "quick_s": 20, "thorough_s": 600},
     "C05": {"families": [("mixed", 2), ("pause", 2), ("c05ack", 2), ("c08", 1), ("faultfree", 1), ("sameid", 1)], "judge": ["C05"], "quick_s": 20, "thorough_s": 600},
     "C06": {"families": [("c06", 2), ("ctxcancel", 1), ("ctxrestart", 1), ("stoprestart", 1), ("ctxfollower", 1)], "crash_is_violation": True, "judge": ["C06"], "quick_s": 20, "thorough_s": 600},
     "C07": {"families": [("faultfree", 1), ("c07rounds", 3), ("c07stale", 2), ("c02stop", 1), ("c07restart", 1)], "crash_is_violation": True, "judge": ["C07"], "quick_s": 20, "thorough_s": 600},
-    "C08": {"families": [("c08", 2), ("mixed", 1), ("faultfree", 1), ("ctxcancel", 1), ("ctxrestart", 1), ("stoprestart", 1)], "crash_is_violation": True, "judge": ["C08"], "quick_s": 20, "thorough_s": 600},
+    "C08": {"families": [("c08", 2), ("mixed", 1), ("faultfree", 1), ("ctxcancel", 1), ("ctxrestart", 1), ("stoprestart", 1), ("c09stop", 1)], "crash_is_violation": True, "judge": ["C08"], "quick_s": 20, "thorough_s": 600},
     "C09": {"families": [("c09stop", 3), ("mixed", 1), ("faultfree", 1), ("c11", 1), ("c09probe", 1)], "level": "fault_enumeration", "judge": ["C09"], "quick_s": 20, "thorough_s": 600, "crash_is_violation": True},
     "C10": {"families": [("c10", 2), ("mixed", 1), ("pause", 1), ("sameid", 1)], "crash_is_violation": True, "judge": ["C10"], "quick_s": 20, "thorough_s": 600},
     "C11": {"families": [("c11", 2), ("c11lock", 1), ("c11reacq", 1)], "judge": ["C11"], "quick_s": 20, "thorough_s": 600, "crash_is_violation": True},
@@ -24,7 +24,7 @@ PROPS = {
     "C13": {"families": [("c13", 1)], "judge": ["C13"], "quick_s": 20, "thorough_s": 600, "crash_is_violation": True},
     "C14": {"families": [("c14sim", 1)], "judge": ["C14"], "quick_s": 12, "thorough_s": 300, "post": "c14_differential"},
     "C17": {"families": [("c17lib", 1), ("faultfree", 1), ("mixed", 1), ("c10", 1)], "judge": ["C17"], "quick_s": 20, "thorough_s": 600},
-    "C18": {"families": [("mixed", 2), ("faultfree", 2), ("c05ack", 2), ("c02stop", 2), ("c09stop", 2), ("stoprestart", 1), ("ctxcancel", 1), ("ctxfollower", 2), ("staleterm", 1)], "crash_is_violation": True, "judge": ["C18"], "quick_s": 20, "thorough_s": 600},
+    "C18": {"families": [("mixed", 2), ("faultfree", 2), ("c05ack", 2), ("c02stop", 2), ("c09stop", 2), ("stoprestart", 1), ("ctxcancel", 1), ("ctxfollower", 2), ("staleterm", 1), ("c11", 1), ("c11reacq", 1)], "crash_is_violation": True, "judge": ["C18"], "quick_s": 20, "thorough_s": 600},
     "C19": {"families": [("c08", 2), ("mixed", 1), ("faultfree", 1), ("ctxcancel", 1), ("ctxrestart", 1), ("stoprestart", 1)], "crash_is_violation": True, "judge": ["C19"], "quick_s": 20, "thorough_s": 600},
 }
 
